@@ -43,7 +43,15 @@ func c07Check(root *routegen.Node, R *rep.Report) (sig, desc string) {
 	if err != nil {
 		return "valid-tree-rejected", fmt.Sprintf("%v\n%s", err, y)
 	}
+	printed := conf.String()
 	rt := NewRoute(conf.Route, nil)
+	// The process builds the tree more than once from one loaded configuration (dispatcher, API, status text): a second
+	// build must neither change the first tree nor the configuration it was built from. The first tree is judged below,
+	// after the second build.
+	rt2 := NewRoute(conf.Route, nil)
+	if after := conf.String(); after != printed {
+		return "building-the-tree-changes-the-configuration", fmt.Sprintf("config printed before NewRoute:\n%s\nafter two NewRoute calls:\n%s", printed, after)
+	}
 	idx, order := routegen.Index(root)
 	var real []*Route
 	rt.Walk(func(r *Route) { real = append(real, r) })
@@ -104,6 +112,14 @@ func c07Check(root *routegen.Node, R *rep.Report) (sig, desc string) {
 		var got []int
 		for _, r := range rt.Match(lset) {
 			got = append(got, ridx[r])
+		}
+		if n1, n2 := len(rt.Match(lset)), len(rt2.Match(lset)); n1 != n2 {
+			return "second-tree-from-the-same-config-routes-differently", fmt.Sprintf("labels %v: first tree selects %d routes, second %d\n%s", ls, n1, n2, y)
+		}
+		for i, r := range rt2.Match(lset) {
+			if r.RouteOpts.Receiver != rt.Match(lset)[i].RouteOpts.Receiver {
+				return "second-tree-from-the-same-config-routes-differently", fmt.Sprintf("labels %v\n%s", ls, y)
+			}
 		}
 		R.Transitions++
 		if len(got) == 0 {
